@@ -24,7 +24,7 @@ import apigen, apicmp
 
 PROP = 'C19'
 LEAN_FILES = ['PnVerif/Model/Safety.lean', 'PnVerif/Model/Header.lean', 'PnVerif/Spec/SpecDecode.lean', 'PnVerif/Lemmas/Window.lean',
-              'PnVerif/Lemmas/Safety.lean', 'PnVerif/Lemmas/SafetyWf.lean', 'PnVerif/Lemmas/SafetyWork.lean', 'PnVerif/Props/C19.lean', 'Driver/C19.lean']
+              'PnVerif/Lemmas/Safety.lean', 'PnVerif/Lemmas/SafetyWf.lean', 'PnVerif/Lemmas/SafetyWork.lean', 'PnVerif/Lemmas/SafetyStrict.lean', 'PnVerif/Lemmas/SafetyEof.lean', 'PnVerif/Props/C19.lean', 'Driver/C19.lean']
 DICT4 = [0, 1, 2, 3, 4, 5, 8, 9, 0x7fffffff, 0x80000000, 0xffffffff, 0xfffffffe, 10, 11, 12, 6, 7, 13, 0x100, 0x101, 0x7ffffffc, 0x10000]
 DICT8 = [0, 1, 0x7fffffff, 0x80000000, 0xffffffff, 0x7fffffffffffffff, 0x8000000000000000, 0xffffffffffffffff,
          0xfffffffffffffffe, 0x100000000, 10, 11, 12, 0x7ffffffffffffffc]
@@ -696,7 +696,7 @@ def run_check(tier, seed):
     rng = SplitMix64(seed * 2654435761 + 19)
     V.assumptions = [
         'LEVEL PARTIAL. Proved (Lean, about the model): totality/progress of the header decoder, in-bounds accesses of the chunk window for every chunk size and input, self-consistency of an accepted header, work bound refuted (F14) + bound under the no-read-past-EOF hypothesis. NOT provable and only tested: absence of undefined behaviour, out-of-bounds, use-after-free, misalignment, NULL dereference in the compiled C (sanitizer build, this run\'s inputs only)',
-        'the model Model/Header.lean (owned by C04) keeps header words as natural numbers; the C casts 64-bit words to the signed MPI_Offset: the model/implementation comparison is claimed only for files in which no 64-bit header word >= 2^63 is read (flag WIDE of the driver); such files are still run on the sanitizer build',
+        'the model Model/Header.lean (owned by C04) keeps header words as natural numbers; the C casts 64-bit words to the signed MPI_Offset: the model/implementation comparison is claimed only for files in which no 64-bit header word >= 2^63 is read (flag WIDE of the driver); such files are still run on the sanitizer build.  On a tree that carries the int63 repair (detected by witness replay) the variant model Safety.getBodyS covers them and they ARE compared; on a tree with the F14 repair the model is Safety.runE (no zero extension)',
         'sanitizer runs use ASAN_OPTIONS allocator_may_return_null=1:max_allocation_size_mb=256 (2048 for the F14 replays) instead of RLIMIT_AS (ASan reserves terabytes of shadow address space), the plain build RLIMIT_AS 2 GiB; every probe runs in a forked child / process of its own with an alarm',
         'names with embedded NUL bytes are accepted by the reader and truncated by the inquiry functions (lookup by name then fails): counted (miss=), not treated as a self-consistency failure',
         'OpenMPI / ROMIO, libc and the harness itself are instrumented only as far as the sanitizer build of the harness reaches (MPI library not instrumented); leak detection is off (C17 owns resource lifecycle)',
